@@ -48,6 +48,15 @@ def sObj (ps : PState) (ss : SState) (tok : String) : Option (Nat × SObj) := do
 def SState.setObj (ss : SState) (id : Nat) (o : Option SObj) : SState :=
   { ss with objs := ss.objs.setIfInBounds id o }
 
+/-- S gives up on object `id`: since it may have been written through, every object referring to
+    the same cells (its views / its parent) is given up as well. -/
+def SState.kill (ss : SState) (id : Nat) : SState :=
+  match ss.objs[id]? with
+  | some (some o) => { ss with objs := ss.objs.map (fun x => match x with
+      | some y => if y.root == o.root then none else some y
+      | none => none) }
+  | _ => ss
+
 /-- pad `objs` so that it is as long as M's object table (new objects S does not define are `none`) -/
 def SState.sync (ss : SState) (n : Nat) : SState :=
   if ss.objs.size < n then { ss with objs := ss.objs ++ Array.replicate (n - ss.objs.size) none } else ss
@@ -70,7 +79,7 @@ def specBin (psBefore : PState) (ss : SState) (newId : Nat) (mres : String) (op 
   let idOf (tok : String) : List Nat := match sObj psBefore ss tok with | some (i, _) => [i] | none => []
   let dests : List Nat := (if unsafe_ then idOf a ++ idOf b else []) ++
     (match reuseTok with | some t => idOf t | none => []) ++ (match incrTok with | some t => idOf t | none => [])
-  let undef (ss : SState) : SOut := fin (dests.foldl (fun ss i => ss.setObj i none) ss) none
+  let undef (ss : SState) : SOut := fin (dests.foldl (fun ss i => ss.kill i) ss) none
   match opnd a, opnd b with
   | some (ta, la), some (tb, lb) =>
     -- the tensor operand that fixes shape and dtype; scalar tensors (rank 0) are outside S's domain here
@@ -95,7 +104,7 @@ def specBin (psBefore : PState) (ss : SState) (newId : Nat) (mres : String) (op 
       -- a refusal leaves every tensor but the designated destination (reuse / incr / the unsafe operand) as it was;
       -- the destination's content is unspecified afterwards
       let refuse (ss : SState) : SOut :=
-        fin (dests.foldl (fun ss i => ss.setObj i none) ss) (some "r=err")
+        fin (dests.foldl (fun ss i => ss.kill i) ss) (some "r=err")
       -- arithmetic destinations must have the operands' element type
       let destDtBad := isArith && ((match reuseTok with | some t => dtOf t != tdt | none => false) ||
         (match incrTok with | some t => dtOf t != tdt | none => false))
@@ -175,8 +184,8 @@ def specUn (psBefore : PState) (ss : SState) (newId : Nat) (mres : String) (op a
   let idOf (tok : String) : List Nat := match sObj psBefore ss tok with | some (i, _) => [i] | none => []
   let dests : List Nat := (if unsafe_ then idOf a else []) ++
     (match reuseTok with | some t => idOf t | none => []) ++ (match incrTok with | some t => idOf t | none => [])
-  let undef (ss : SState) : SOut := fin (dests.foldl (fun ss i => ss.setObj i none) ss) none
-  let refuse (ss : SState) : SOut := fin (dests.foldl (fun ss i => ss.setObj i none) ss) (some "r=err")
+  let undef (ss : SState) : SOut := fin (dests.foldl (fun ss i => ss.kill i) ss) none
+  let refuse (ss : SState) : SOut := fin (dests.foldl (fun ss i => ss.kill i) ss) (some "r=err")
   match sObj psBefore ss a, psBefore.obj a with
   | some (tid, t), some (_, d) =>
     let supported : Bool := if op == "apply" then mapTypes.contains d.dt else
